@@ -287,6 +287,11 @@ func runCase(rec *vr.Rec, c ccase, rnd *rand.Rand) {
 func equalToken(rec *vr.Rec, kind string, blockwise bool, n int, rnd *rand.Rand) {
 	c := ccase{Kind: kind, Blockwise: blockwise, Callers: 2, Tokens: "equal"}
 	for it := 0; it < n; it++ {
+		if rec.NViolations() > 8 {
+			// every failing iteration costs a caller's full deadline: enough witnesses, end the run with them
+			rec.Count("equal_token_iterations_skipped_after_violations", int64(n-it))
+			break
+		}
 		e := newEnv(kind, blockwise, 16)
 		tok := []byte{0xe0, byte(it), byte(it >> 8), 0x55}
 		type res struct {
